@@ -60,6 +60,9 @@ def check(run: Run) -> None:
     first = run_ops("c11", [{"src": s, "entries": ("string",)} for s in cand], limit=20.0, batch=100)
     rejected = [s for s, r in zip(cand, first) if r["errors"] and not r["errors"][0].get("hang")]
     rejected = rng.sample(rejected, min(cfg["snips"], len(rejected))) + [x for x in SPECIAL if x not in GATED] + corpus.invalid_seeds()
+    # errors raised while evaluating literals / when the parser runs out of stack (placed by the layouts like any other snippet)
+    rejected += ["x = " + "1" * 4400 + "\n", "x = -" + "9" * 4400 + "j + 1\n", "x = " + "(" * 400 + "1" + ")" * 400 + "\n", "x = '\ud800'\n",
+                 "x = b'\u00e9'\n", "x = '\\N{NOPE}'\n", "x = f'{y:{z=}' \n"]
     cases, seen = [], set()
 
     def add(src, origin):
